@@ -1,29 +1,51 @@
-"""Discharge obligations with z3 (python API); serial or in a process pool via SMT-LIB text."""
+"""Discharge obligations with z3 under a *deterministic* resource budget (rlimit) and a generous
+wall-clock cap.  z3's `unknown`s can be handed to cvc5 (SMT-LIB text) by callers that want it.
+
+result: 'proved' (unsat) | 'refuted' (sat, model kept) | 'open' (unknown; reason says why)
+reason for open: 'rlimit-exhausted' (deterministic: same on every machine load),
+                 'timeout' (wall clock: never turned into a violation), or z3's own reason
+                 (e.g. incomplete quantifiers).
+"""
+import os
+import subprocess
+import tempfile
 import time
+
 import z3
 
-DEFAULT_TIMEOUT_MS = 30000
+DEFAULT_RLIMIT = 150_000_000  # ~30 s of z3 work on this box; budgets from the baseline override it
+MIN_RLIMIT = 25_000_000
+WALL_CAP_MS = 180_000
 
 
-def _mk_solver(ob, timeout_ms):
+def budget_for(baseline_units):
+    if not baseline_units:
+        return DEFAULT_RLIMIT
+    return max(MIN_RLIMIT, 50 * int(baseline_units))
+
+
+def discharge(ob, timeout_ms=None, want_model=True, rlimit=None):
+    t = time.time()
+    g = ob.goal if not isinstance(ob.goal, bool) else z3.BoolVal(ob.goal)
+    gs = z3.simplify(g)
+    if z3.is_true(gs):
+        ob.result, ob.backend, ob.seconds, ob.units = "proved", "simplifier", time.time() - t, 0
+        return ob
     s = z3.Solver()
-    s.set("timeout", timeout_ms)
+    s.set("timeout", timeout_ms or WALL_CAP_MS)
+    budget = rlimit or DEFAULT_RLIMIT
+    s.set("rlimit", budget)
     for h in ob.hyps:
         s.add(h)
-    s.add(z3.Not(ob.goal))
-    return s
-
-
-def discharge(ob, timeout_ms=DEFAULT_TIMEOUT_MS, want_model=True):
-    t = time.time()
-    g = z3.simplify(ob.goal) if not isinstance(ob.goal, bool) else z3.BoolVal(ob.goal)
-    if z3.is_true(g):
-        ob.result, ob.backend, ob.seconds = "proved", "simplifier", time.time() - t
-        return ob
-    s = _mk_solver(ob, timeout_ms)
+    s.add(z3.Not(g))
     r = s.check()
     ob.seconds = time.time() - t
     ob.backend = "z3"
+    try:
+        st = s.statistics()
+        ob.units = int(st.get_key_value("rlimit count")) if "rlimit count" in st.keys() else 0
+    except Exception:
+        ob.units = 0
     if r == z3.unsat:
         ob.result = "proved"
     elif r == z3.sat:
@@ -32,11 +54,37 @@ def discharge(ob, timeout_ms=DEFAULT_TIMEOUT_MS, want_model=True):
             ob.model = s.model()
     else:
         ob.result = "open"
-        ob.reason = s.reason_unknown()
+        why = s.reason_unknown()
+        if ob.units >= budget:
+            why = "rlimit-exhausted (%d units)" % budget
+        elif "canceled" in why or "timeout" in why:
+            why = "timeout"
+        ob.reason = why
     return ob
 
 
-def discharge_all(obs, timeout_ms=DEFAULT_TIMEOUT_MS):
+def discharge_all(obs, timeout_ms=None, budgets=None):
+    budgets = budgets or {}
     for ob in obs:
-        discharge(ob, timeout_ms)
+        discharge(ob, timeout_ms, rlimit=budget_for(budgets.get(ob.name)))
     return obs
+
+
+def cvc5_check(ob, timeout_s=60):
+    """second opinion on a z3 `unknown`: returns 'unsat' | 'sat' | 'unknown'"""
+    s = z3.Solver()
+    for h in ob.hyps:
+        s.add(h)
+    s.add(z3.Not(ob.goal))
+    txt = s.to_smt2()
+    with tempfile.NamedTemporaryFile("w", suffix=".smt2", delete=False) as f:
+        f.write(txt)
+        fn = f.name
+    try:
+        out = subprocess.run(["/usr/bin/cvc5", "--tlimit=%d" % (timeout_s * 1000), fn], capture_output=True, text=True, timeout=timeout_s + 10)
+        first = (out.stdout.strip().splitlines() or ["unknown"])[0]
+        return first if first in ("sat", "unsat") else "unknown"
+    except Exception:
+        return "unknown"
+    finally:
+        os.unlink(fn)
